@@ -3,6 +3,7 @@ package processorqueue
 import (
 	publictypes "lunar/engine/streams/public-types"
 	context_manager "lunar/toolkit-core/context-manager"
+	"lunar/toolkit-core/verifhook"
 	"sync"
 	"time"
 
@@ -101,6 +102,9 @@ func (r *Request) SetProcessedSuccess() {
 	r.state = requestProcessed
 
 	log.Trace().Msgf("Request %s is processed successfully", r.GetID())
+	if verifhook.Enabled {
+		verifhook.Emit("queue.signalled", r.GetID(), "success")
+	}
 	r.setSignal()
 }
 
@@ -112,6 +116,9 @@ func (r *Request) SetProcessedTimeout() bool {
 	r.state = requestProcessed
 
 	log.Trace().Msgf("Request %s is timed out", r.GetID())
+	if verifhook.Enabled {
+		verifhook.Emit("queue.signalled", r.GetID(), "timeout")
+	}
 	r.setSignal()
 	return true
 }
